@@ -322,13 +322,75 @@ def rule_nan_policy(ctx):
         ctx.holds('R4', '_MaskedArrayFunc: mask NaNs, np.ma function, masked results filled with NaN (boolean ones with the identity of the reduction)')
     # _median_with_nan
     fi = ctx.fn(TR + '_median_with_nan')
-    ev = run(ctx, fi, mode='join')
-    s = ' '.join(T.show(e.c) if isinstance(e.c, tuple) else '' for p in ev.paths for e in p.events if e.kind in ('store_sub',))
-    rets = [T.show(p.value) for p in ret_paths(ev)]
-    if 'np.nan' in s and any('np.nan' in r for r in rets):
-        ctx.holds('R4', '_median_with_nan re-inserts NaN (scalar and per-slice)')
-    else:
-        ctx.violated('R4', fi, '_median_with_nan', 'the NaN-propagating median must set NaN where the reduced slice contains NaN (scalar result and per slice)')
+    rule_median_with_nan(ctx, fi)
+
+
+def rule_median_with_nan(ctx, fi):
+    """skipna=False for median: NumPy's median may ignore a NaN, so NaN is re-inserted - into the scalar result, and per slice where the slice *along the
+    axis the median was taken* holds a NaN (path-wise; the axis is compared for positions 0, 1, 2, -1 and None)"""
+    from ..rules import val_eval, UNKNOWN
+    VALUES, KW = P_('values'), P_('**kwargs')
+    ev = run(ctx, fi, mode='fork')
+    okm = True
+    n = 0
+
+    def is_median(t):
+        return t[0] == 'call' and T.call_name(t) == 'median' and t[2][:1] == (VALUES,) and any(k == '**' for k, v in t[3])
+
+    def axis_leaves(t):
+        out = []
+        for x in T.subterms(t):
+            if x[0] == 'call' and T.call_name(x) in ('pop', 'get') and x[1][0] == 'attr' and T.contains(x[1][1], KW) and x[2][:1] == (const('axis'),):
+                out.append(x)
+            if x[0] == 'sub' and T.contains(x[1], KW) and x[2] == const('axis'):
+                out.append(x)
+        return out
+
+    for p in ret_paths(ev):
+        has_nan = [pol for a, pol in p.guards if a[0] == 'call' and T.call_name(a) == 'anynan' and a[2] == (VALUES,) and not a[3]]
+        scalar = [pol for a, pol in p.guards if (a[0] == 'cmp' and a[1] == '==' and a[3] == const(0) and T.call_name(a[2]) == 'ndim') or
+                  (a[0] == 'call' and T.call_name(a) == 'isscalar')]
+        scalar = [True] if True in scalar else scalar[:1]
+        v = p.value
+        n += 1
+        if has_nan in ([False], []):
+            if has_nan == [] or not is_median(v):
+                ctx.violated('R4', fi, 'return ' + T.show(v)[:120], 'without NaN the result is the plain median of the values (and the NaN test must be anynan(values))', node=p.node)
+                okm = False
+            continue
+        if scalar == [True]:
+            if T.dotted(v) not in ('np.nan', 'nan'):
+                ctx.violated('R4', fi, 'return ' + T.show(v)[:120], 'a scalar median of values containing NaN must be NaN', node=p.node)
+                okm = False
+            continue
+        if not (v[0] == 'setitem' and is_median(v[1]) and T.dotted(v[3]) in ('np.nan', 'nan')):
+            ctx.violated('R4', fi, 'return ' + T.show(v)[:160], 'the NaN-propagating median must set NaN where the reduced slice contains NaN', node=p.node)
+            okm = False
+            continue
+        key = v[2]
+        if not (key[0] == 'call' and T.call_name(key) == 'anynan' and key[2][:1] == (VALUES,)):
+            ctx.violated('R4', fi, 'mask ' + T.show(key)[:120], 'the slices to blank are those where anynan(values, axis=<axis of the median>) is true', node=p.node)
+            okm = False
+            continue
+        ax = T.kw(key, 'axis') if T.kw(key, 'axis') is not None else (key[2][1] if len(key[2]) > 1 else None)
+        leaves = axis_leaves(ax) if ax is not None else []
+        bad = None
+        if ax is None or not leaves:
+            bad = 'it does not read the axis= keyword the median was called with'
+        else:
+            for val in (0, 1, 2, -1, None):
+                got = val_eval(ax, dict((x, val) for x in leaves))
+                if got is UNKNOWN or got != val or (got is None) != (val is None) or isinstance(got, bool):
+                    bad = 'for axis=%r the NaN test runs along %s' % (val, 'an undecided axis' if got is UNKNOWN else repr(got))
+                    break
+        if bad:
+            ctx.violated('R4', fi, 'anynan(values, axis=%s)' % (T.show(ax)[:100] if ax else '<missing>'), 'the NaN test must run along the axis the median was taken along: %s '
+                         '(median(axis=0, skipna=False) would blank every slice as soon as one holds a NaN)' % bad, node=p.node)
+            okm = False
+    if n < 3:
+        ctx.undecide('R4', '_median_with_nan: expected the three cases (no NaN / scalar / per slice), found %d returning paths' % n)
+    elif okm:
+        ctx.holds('R4', '_median_with_nan re-inserts NaN (scalar, and per slice along the axis of the median for axis in 0, 1, 2, -1, None)')
 
 
 def rule_percentile(ctx):
